@@ -136,7 +136,9 @@ func textDiff(a, b *anypb.Any) string {
 	return fmt.Sprintf("text line %d: reference {%s} got {%s}", i+1, cut(la), cut(lb))
 }
 
-// compareSections classifies the differences between two ordered resource lists. Keys:
+// compareSections classifies the differences between two ordered resource lists. The key says WHAT
+// differs (one root cause, one key); between which runs it differs (other permutation, other constant,
+// repetition in one environment, other process) is part of the description. Keys:
 //   <proxy>/<xds>|resource-order|<classA>~<classB>      same resources, other order (classes of the first two resources out of place)
 //   <proxy>/<xds>|resource-set|<class>|<family>          a resource is missing / extra
 //   <proxy>/<xds>|<class>|<first differing field path>|<family>   same name, other bytes
@@ -155,7 +157,7 @@ func compareSections(family, key, suffix string, ref, got []resT) []diffT {
 			if cb < ca {
 				ca, cb = cb, ca
 			}
-			out = append(out, diffT{pfx + "resource-order|" + ca + "~" + cb + suffix, fmt.Sprintf("%s: same resources in a different order: reference %v got %v", key, rn, gn)})
+			out = append(out, diffT{pfx + "resource-order|" + ca + "~" + cb, fmt.Sprintf("%s%s: same resources in a different order: reference %v got %v", key, suffix, rn, gn)})
 		} else {
 			inRef, inGot := map[string]int{}, map[string]int{}
 			for _, n := range rn {
@@ -171,7 +173,7 @@ func compareSections(family, key, suffix string, ref, got []resT) []diffT {
 					break
 				}
 			}
-			out = append(out, diffT{pfx + "resource-set|" + cls + "|" + family + suffix, fmt.Sprintf("%s: different resource names: reference %v got %v", key, rn, gn)})
+			out = append(out, diffT{pfx + "resource-set|" + cls + "|" + family, fmt.Sprintf("%s%s: different resource names: reference %v got %v", key, suffix, rn, gn)})
 		}
 	}
 	// content, matched by name (k-th occurrence of a name with the k-th occurrence)
@@ -194,12 +196,12 @@ func compareSections(family, key, suffix string, ref, got []resT) []diffT {
 		if path == "" {
 			path = "<bytes-only>" // equal as messages, different encodings
 		}
-		k := pfx + resourceClass(xds, ref[i].Name) + "|" + path + "|" + family + suffix
+		k := pfx + resourceClass(xds, ref[i].Name) + "|" + path + "|" + family
 		if seen[k] {
 			continue
 		}
 		seen[k] = true
-		out = append(out, diffT{k, fmt.Sprintf("%s resource %q (%d vs %d bytes) first differs at %s; %s", key, ref[i].Name, len(a.GetValue()), len(b.GetValue()), path, textDiff(a, b))})
+		out = append(out, diffT{k, fmt.Sprintf("%s%s resource %q (%d vs %d bytes) first differs at %s; %s", key, suffix, ref[i].Name, len(a.GetValue()), len(b.GetValue()), path, textDiff(a, b))})
 	}
 	return out
 }
@@ -222,7 +224,7 @@ func compare(family string, ref, got *observation) []diffT {
 				out = append(out, compareSections(family, k, "", refBy[k], s.Res)...)
 			}
 		} else {
-			out = append(out, compareSections(family, k, "|repetition"+rep, gotBy[k], s.Res)...)
+			out = append(out, compareSections(family, k, " [repetition "+rep+" against the first generation in the same environment]", gotBy[k], s.Res)...)
 		}
 	}
 	return out
@@ -392,9 +394,6 @@ func TestC17(t *testing.T) {
 					}
 					if o.digest() != none.digest() {
 						solo[o.digest()] = true
-					}
-					if len(solo) == 0 && influence == 0 {
-						res.Outcome("no-influence:" + c.Name + ":" + objID(objs[i]))
 					}
 				}
 				res.Count("objects_whose_removal_changes_the_output", int64(influence))
